@@ -26,6 +26,11 @@ def make_config(rng: random.Random, profile: str, tier: str) -> dict:
     cfg['threads'] = rng.choice([1, 1, 2, 3, 0])
     # buggify: knobs the saved-iteration logic is supposed not to depend on
     cfg['max_report'] = rng.choice([15, 15, 0, 1, 2])
+    if cfg['K'] <= 10 and not cfg.get('cliff') and not cfg.get('kink') and rng.random() < 0.2:
+        # declared bounds that the evaluated points do not respect (direct calls and the scripted optimiser go where they
+        # please; so do the algorithms that ignore bounds): the file holds the evaluated point, not a feasible one
+        cfg['bounds'] = [rng.choice([None, [-0.05, 0.05], [None, 0.02], [-0.02, None]]) for _ in range(cfg['K'])]
+        cfg['tight_bounds'] = True
     if cfg['family'] == 'quad' and cfg['K'] <= 10 and rng.random() < 0.25:
         # one observation, no constant: the perfect fit has a log likelihood of exactly 0.0 and is one of the points the
         # scripted optimiser may visit ('perfect')
@@ -58,7 +63,8 @@ def make_ops(rng: random.Random, cfg: dict, profile: str, tier: str) -> list[dic
             p = _points(rng, 1)[0]
             ops.append({'op': 'EVAL', 'a': [p[0], p[1], p[2], rng.random() < 0.3]})
         elif r < 0.80:
-            scripted = rng.random() < 0.6 or cfg['K'] > 100 or bool(cfg.get('cliff')) or bool(cfg.get('kink'))
+            scripted = (rng.random() < 0.6 or cfg['K'] > 100 or bool(cfg.get('cliff')) or bool(cfg.get('kink'))
+                        or bool(cfg.get('tight_bounds')))
             algo = 'scripted' if scripted else rng.choice(REAL_ALGOS)
             boot = rng.choice([0, 0, 0, 2, 3]) if 2 <= cfg['K'] <= 100 else 0
             ops.append({'op': 'ESTIMATE', 'a': [algo, boot, rng.choice(['best', 'last', 'first'])],
